@@ -59,7 +59,14 @@ def generate(rng, n):
 def impl(case):
     import productmd.common
     try:
-        return ["ok", productmd.common.parse_nvra(case["s"])]
+        first = productmd.common.parse_nvra(case["s"])
+        snapshot = dict(first)
+        first["name"], first["arch"] = "changed-by-the-caller", "src"      # the caller owns what it was given
+        first.pop("epoch", None)
+        again = productmd.common.parse_nvra(case["s"])
+        if again != snapshot:
+            return ["err", "HistoryDependent", "second parse_nvra(%r) = %r after the caller modified the first result %r" % (case["s"], again, snapshot)]
+        return ["ok", snapshot]
     except (ValueError, TypeError, AttributeError, KeyError, IndexError) as e:
         return exc_result(e)
 
